@@ -198,8 +198,11 @@ fn prepare(c: &BrCase, c10: bool) -> Option<Prep> {
 // ------------------------------------------------------------------------------------------
 // alphabets
 // ------------------------------------------------------------------------------------------
-pub const C10_SYMS: &[&str] = &["cb", "sA", "sV", "eA", "eV", "wA", "rA", "bA", "dA", "irW", "kr", "js", "sd", "un", "fsA", "feA", "p:sA", "p:eA", "p:wA", "p:rA", "wBig"];
-pub const C11_SYMS: &[&str] = &["fs0", "fs1", "fs2", "fs3", "fs4", "fs9", "feA", "feV", "bBig", "bSm", "wBig", "dA", "rAll", "lqA", "bkA", "sA", "eA", "tA", "cA", "p:fs2", "p:feA", "p:bBig", "cb"];
+// a trailing "+" = the same instruction with one extra byte appended to its data (Anchor ignores
+// trailing bytes, so it dispatches identically; validators that compare whole data would not)
+pub const C10_SYMS: &[&str] = &["cb", "sA", "sV", "eA", "eV", "wA", "rA", "bA", "dA", "irW", "kr", "js", "sd", "un", "fsA", "feA", "p:sA", "p:eA", "p:wA", "p:rA", "wBig", "sA+", "sV+", "eA+"];
+// "feV&A" = end for account V with account U appended as a trailing (ignored) remaining account
+pub const C11_SYMS: &[&str] = &["fs0", "fs1", "fs2", "fs3", "fs4", "fs9", "feA", "feV", "bBig", "bSm", "wBig", "dA", "rAll", "lqA", "bkA", "sA", "eA", "tA", "cA", "p:fs2", "p:feA", "p:bBig", "cb", "feV&A", "feA+"];
 
 fn foreign_ix(program_id: Pubkey, data: Vec<u8>) -> Instruction {
     Instruction { program_id, accounts: vec![], data }
@@ -212,6 +215,16 @@ fn build_ix(p: &Prep, sym: &str) -> Instruction {
     let risk_u = w.risk_metas(&ua, Some(w.banks[lb].key), None);
     if let Some(inner) = sym.strip_prefix("p:") {
         return wrap_cpi(proxy_id_allowed(), &build_ix(p, inner));
+    }
+    if let Some(inner) = sym.strip_suffix('+') {
+        let mut ix = build_ix(p, inner);
+        ix.data.push(0);
+        return ix;
+    }
+    if sym == "feV&A" {
+        let mut ix = build_ix(p, "feV");
+        ix.accounts.push(AccountMeta::new(ua, false));
+        return ix;
     }
     match sym {
         "cb" => foreign_ix(noop_ids()[0], vec![2, 0, 0, 0, 0]),
@@ -317,10 +330,10 @@ fn in_c10_language(shape: &[&str]) -> bool {
     while i < shape.len() && is_pre(shape[i]) {
         i += 1;
     }
-    if i >= shape.len() || shape[i] != "sA" {
+    if i >= shape.len() || !(shape[i] == "sA" || shape[i] == "sA+") {
         return false;
     }
-    if *shape.last().unwrap() != "eA" {
+    if !matches!(*shape.last().unwrap(), "eA" | "eA+") {
         return false;
     }
     for s in &shape[i + 1..shape.len() - 1] {
@@ -464,7 +477,7 @@ fn check_c11(p: &Prep, shape: &[&str], stats: &mut Stats) -> Result<(), (String,
             let Some(end_idx) = sym.strip_prefix("fs").and_then(|x| x.parse::<usize>().ok()) else {
                 return Err(("flash:flag-set-by-non-start".into(), format!("shape {:?}: instruction #{i} ({sym}) set the flash-loan flag", shape)));
             };
-            let ok_shape = end_idx > i && end_idx < shape.len() && shape[end_idx] == "feA";
+            let ok_shape = end_idx > i && end_idx < shape.len() && matches!(shape[end_idx], "feA" | "feA+");
             if !ok_shape {
                 return Err(("flash:start-accepted-malformed".into(), format!("shape {:?}: start at #{i} naming index {end_idx} was accepted", shape)));
             }
@@ -517,7 +530,7 @@ fn check_c11(p: &Prep, shape: &[&str], stats: &mut Stats) -> Result<(), (String,
     if let Some(i) = skipped_at {
         stats.skipped_health_checks += 1;
         // then an end for U by this program at top level appears later …
-        let later_end = shape[i + 1..].iter().any(|s| *s == "feA");
+        let later_end = shape[i + 1..].iter().any(|s| matches!(*s, "feA" | "feA+"));
         if !later_end {
             return Err(("flash:unchecked-borrow-committed".into(), format!("shape {:?}: #{i} left the account initially unhealthy and no end instruction follows", shape)));
         }
@@ -696,8 +709,8 @@ pub fn run_case(c: &BrCase, c10: bool, stats: &mut Stats, shard: Option<(usize, 
     Ok(())
 }
 
-const RULE_C10: &str = "per generated world (2 banks; generated decimals, token programs, weights, oracles; a borrower steered to a generated maintenance health, mostly liquidatable, sometimes healthy; liquidation records created): EXHAUSTIVE enumeration of all transaction shapes up to the stated length over the 21-symbol alphabet {compute-budget, start(U), start(V), end(U), end(V), withdraw(U) by third party, big withdraw, repay(U), borrow(U), deposit(U), init-record, kamino-refresh (whitelisted), allowed-program swap, short-data ix, unknown-program ix, flash start/end, and start/end/withdraw/repay via CPI from an allow-listed proxy program} plus random longer shapes; every shape executed as one atomic transaction through the real entry point. Commit-time oracle: no receivership flag / receiver survives; if a third party controlled the account then the shape is in the language written from the statement (start first after compute/whitelisted, end last, only withdraw/repay/record-init between, allowed programs, no CPI), the account was not healthy, health not worse, not ended healthy and premium <= max(fee,5%) unless equity < $5 (definite breaches on enclosures, under both price readings). Non-trivial = committed transactions in which a third party controlled the account; distinct by (shape, world hash).";
-const RULE_C11: &str = "per generated world (account normal / frozen / disabled-by-transfer): EXHAUSTIVE enumeration of all transaction shapes up to the stated length over the 23-symbol alphabet {flash start naming end index 0,1,2,3,4,9; end(U); end(V); big borrow (unhealthy); small borrow; big withdraw; deposit; repay_all; classic liquidate(U); bankruptcy(U); start_liquidation(U); end_liquidation(U); transfer(U); close(U); start/end/borrow via CPI; compute-budget} plus random longer shapes, each executed atomically. Oracle: per executed instruction — a start that set the flag named a later end(U) of this program, was top-level, on an unflagged account, not nested; liquidation/bankruptcy/start_liquidation never succeed on a flagged account; at commit — no flash-loan flag survives, and if an action inside left the account initially unhealthy (reference model) then an end(U) follows and the account is not unhealthy at commit. Non-trivial = committed transactions containing a borrow/withdraw that skipped the health check.";
+const RULE_C10: &str = "per generated world (2 banks; generated decimals, token programs, weights, oracles; a borrower steered to a generated maintenance health, mostly liquidatable, sometimes healthy; liquidation records created): EXHAUSTIVE enumeration of all transaction shapes up to the stated length over the 24-symbol alphabet (incl. trailing-byte variants of start/end) {compute-budget, start(U), start(V), end(U), end(V), withdraw(U) by third party, big withdraw, repay(U), borrow(U), deposit(U), init-record, kamino-refresh (whitelisted), allowed-program swap, short-data ix, unknown-program ix, flash start/end, and start/end/withdraw/repay via CPI from an allow-listed proxy program} plus random longer shapes; every shape executed as one atomic transaction through the real entry point. Commit-time oracle: no receivership flag / receiver survives; if a third party controlled the account then the shape is in the language written from the statement (start first after compute/whitelisted, end last, only withdraw/repay/record-init between, allowed programs, no CPI), the account was not healthy, health not worse, not ended healthy and premium <= max(fee,5%) unless equity < $5 (definite breaches on enclosures, under both price readings). Non-trivial = committed transactions in which a third party controlled the account; distinct by (shape, world hash).";
+const RULE_C11: &str = "per generated world (account normal / frozen / disabled-by-transfer): EXHAUSTIVE enumeration of all transaction shapes up to the stated length over the 25-symbol alphabet (incl. an end for another account that merely lists U, and a trailing-byte end) {flash start naming end index 0,1,2,3,4,9; end(U); end(V); big borrow (unhealthy); small borrow; big withdraw; deposit; repay_all; classic liquidate(U); bankruptcy(U); start_liquidation(U); end_liquidation(U); transfer(U); close(U); start/end/borrow via CPI; compute-budget} plus random longer shapes, each executed atomically. Oracle: per executed instruction — a start that set the flag named a later end(U) of this program, was top-level, on an unflagged account, not nested; liquidation/bankruptcy/start_liquidation never succeed on a flagged account; at commit — no flash-loan flag survives, and if an action inside left the account initially unhealthy (reference model) then an end(U) follows and the account is not unhealthy at commit. Non-trivial = committed transactions containing a borrow/withdraw that skipped the health check.";
 
 pub fn run(ctx: &Ctx, c10: bool) -> Report {
     let worlds: u32 = ctx.tier.pick(4, 10);
